@@ -78,7 +78,7 @@ def run(ctx, rep):
 
     # ---- R10.1a constants propagated from construction sites
     vals, sites = construction_values(ctx, ev, rep)
-    rep.floor("R10.1-constructors", sites, 3, "call sites of Rdh0Validator::new")
+    rep.floor("R10.1-constructors", sites, 2, "reachable call sites of Rdh0Validator::new (3 on the pinned tree; the default and a specialised/custom one are the minimum)")
     fee_const = "FeeIdSanityValidator::FeeIdSanityValidator(layer_min_max=(%s,%s),stave_number_min_max=(%s,%s))" % (
         hex(K["layer_min_max"][0]), hex(K["layer_min_max"][1]), hex(K["stave_number_min_max"][0]), hex(K["stave_number_min_max"][1]))
     expect = {
@@ -97,9 +97,6 @@ def run(ctx, rep):
     rep.check(ok_sys, "R10.1-const", "R10.1|const|system_id", "system_id is None or Some(0x20): %s" % sorted(sysvals), V,
               "system_id validator values %s are not {None, Some(0x20)}" % sorted(sysvals))
     hid = vals.get("Rdh0Validator.header_id", set())
-    learn = vals.get("Rdh0Validator.header_id.learn", set())
-    rep.check(len(learn) == 1 and "header_id" in next(iter(learn), ""), "R10.1-const", "R10.1|const|header_id_learn",
-              "header_id reference is learnt from the checked RDH0 when unset: %s" % sorted(learn), V)
     rep.check(all(h == "Option::None()" or h.startswith("Option::Some(0=sym(") for h in hid) and hid, "R10.1-const", "R10.1|const|header_id",
               "header_id constructed as None or Some(configured version): %s" % sorted(hid), V)
 
@@ -138,34 +135,50 @@ def run(ctx, rep):
     if entry not in f.fns:
         rep.missing("R10.1", entry)
         return
-    out = ev.collect_ifs(entry, [selfv, Obj(root, 0, RC)], follow=lambda c: c.startswith(V) and c.endswith("sanity_check"))
-    got = {}
-    structural = 0
-    for o in out:
-        if "cond" not in o:
-            continue
-        k = ckey(o["cond"])
-        if "is_empty" in k:
-            structural += 1
-            continue
-        if "HEADER_ID_OPT" in k and "isSome" in k:
-            continue  # the learning branch `if self.header_id.is_none()`
-        k = k.replace("sym(unwrap(sym(HEADER_ID_OPT)))", "sym(HEADER_ID)").replace("sym(payload(sym(SYSTEM_ID_OPT),Some))", "sym(SYSTEM_ID)")
-        if k == "symc(isSome(sym(SYSTEM_ID_OPT)))":
-            continue
-        g = tuple(x for x in o["guard"] if "is_empty" not in x)
-        got.setdefault(k, []).append((o["where"], g))
+    # decided on the cases of the two optional references: both present (every documented condition must appear),
+    # both absent (the header-id and system-id conditions must be gone, the header id is learnt)
+    def conds_for(hopt, sopt, watch=None):
+        self0.fields["header_id"] = hopt
+        self0.fields["system_id"] = sopt
+        ev.watch = watch
+        try:
+            recs_ = ev.collect_ifs(entry, [selfv, Obj(root, 0, RC)], follow=lambda c: c.startswith(V) and c.endswith("sanity_check"))
+        finally:
+            ev.watch = None
+        g_, st_ = {}, 0
+        recs_ = [o for o in recs_ if not any(x in ("false", "not true") for x in o["guard"])]
+        for o in recs_:
+            if "cond" not in o:
+                continue
+            k = ckey(o["cond"])
+            if "is_empty" in k:
+                st_ += 1
+                continue
+            if k in ("true", "false"):
+                continue
+            g = tuple(x for x in o["guard"] if "is_empty" not in x and x not in ("true", "not false"))
+            g_.setdefault(k, []).append((o["where"], g))
+        return g_, st_, recs_
+    some = lambda x: Agg("core::option::Option", "Some", {"0": x})
+    none_ = Agg("core::option::Option", "None", {})
+    got, structural, _ = conds_for(some(Sym("HEADER_ID")), some(Sym("SYSTEM_ID")))
+    got_none, _, recs_none = conds_for(none_, none_, watch=lambda c: c.endswith("Option::<T>::get_or_insert") or c.endswith("Option::<T>::insert") or c.endswith("Option::<T>::get_or_insert_with"))
+    opt_keys = {k for k in got if "sym(HEADER_ID)" in k or "sym(SYSTEM_ID)" in k}
+    rep.check(set(got_none) == set(got) - opt_keys and len(opt_keys) == 2, "R10.1", "R10.1|cond|optional-references",
+              "without a configured/learnt header id and without a target system exactly the header-id and system-id conditions disappear", V,
+              "conditions with both references absent: missing %s, extra %s; optional conditions %s" % (sorted(set(got) - opt_keys - set(got_none))[:3], sorted(set(got_none) - set(got))[:3], sorted(opt_keys)))
+    hid_bits = ckey(Bits.inp(root, 0, 8)) if False else "{b0..7=%s[7:0]}" % root
+    learnt = [o for o in recs_none if ("assign" in o and o.get("place", "").endswith(".header_id") and hid_bits in o["assign"][2]) or
+              ("call" in o and len(o["args"]) == 2 and o["args"][1] == hid_bits)]
+    rep.check(len(learnt) == 1, "R10.1-const", "R10.1|const|header_id_learn", "the header-id reference is learnt from the first checked RDH0 when unset (%d store)" % len(learnt), V,
+              "stores of the checked header id into the unset reference: %s" % [(o.get("assign") or o.get("call")) for o in learnt])
     want = {}
     for ent in orc["sanity_error_conditions"]:
         want[ckey(oracle_cond(ent["cond"], root))] = ent
     for k, ent in want.items():
         if k in got:
             w, g = got[k][0]
-            gok = True
-            if ent.get("guard"):
-                gok = any("SYSTEM_ID_OPT" in x for x in g)
-            else:
-                gok = not g
+            gok = not g
             rep.check(gok and len(got[k]) == 1, "R10.1", "R10.1|cond|%s" % ent["name"], "%s ⇔ %s" % (ent["name"], k), w,
                       "condition for '%s' is guarded by %s / occurs %d times (expected %s)" % (ent["name"], g, len(got[k]), ent.get("guard", "unguarded, once")))
         else:
@@ -182,7 +195,9 @@ def run(ctx, rep):
     last = Agg("core::option::Option", "Some", {"0": Obj("LAST", 0, RC)})
     selfr = Agg("RdhCruRunningChecker", "RdhCruRunningChecker", {
         "expect_pages_counter": Sym("EXPECT"), "expect_pages_counter_increment": Sym("INCR"),
-        "last_rdh_cru": last, "first_rdh_cru": Sym("FIRST"), "second_rdh_cru": Sym("SECOND")})
+        # steady state: the first two RDHs of the link have been seen (the learning phase is decided separately below)
+        "last_rdh_cru": last, "first_rdh_cru": Agg("core::option::Option", "Some", {"0": Obj("FIRSTR", 0, RC)}),
+        "second_rdh_cru": Agg("core::option::Option", "Some", {"0": Obj("SECONDR", 0, RC)})})
     if RUN + "check" not in f.fns:
         rep.missing("R10.2", RUN + "check")
         return
@@ -242,9 +257,20 @@ def run(ctx, rep):
               "every other stop_bit value (%d values): error text written unconditionally, expected page counter untouched" % others_ok, RUN,
               "stop_bit values that are neither 0 nor 1 are not reported unconditionally or touch the expected page counter: %s" % others_bad[:4])
     # increment learnt from the 2nd RDH
-    inc = [(a, g) for a, g, w in assigns if a[1] == "sym(INCR)"]
-    rep.check(len(inc) == 1 and "SECOND" in inc[0][0][2] and "pages_counter" in inc[0][0][2] and any("isSome(sym(SECOND))" in x for x in inc[0][1]),
-              "R10.2", "R10.2|increment|learn", "page-counter increment learnt once from the 2nd RDH: %s" % (inc,), RUN)
+    # decided on the three phases of a link: no RDH seen yet / one seen / steady state — the increment is stored
+    # exactly in the second phase, from the RDH being checked
+    none_o = Agg("core::option::Option", "None", {})
+    some_o = lambda nm: Agg("core::option::Option", "Some", {"0": Obj(nm, 0, RC)})
+    learn = {}
+    for phase, (fst, snd) in (("first", (none_o, none_o)), ("second", (some_o("FIRSTR"), none_o)), ("steady", (some_o("FIRSTR"), some_o("SECONDR")))):
+        slf_ = Agg("RdhCruRunningChecker", "RdhCruRunningChecker", dict(selfr.fields, first_rdh_cru=fst, second_rdh_cru=snd))
+        recs_ = [o for o in ev.collect_ifs(RUN + "check", [slf_, Obj(root, 0, RC)], follow=lambda c: c.startswith(RUN)) if not any(x in ("false", "not true") for x in o["guard"])]
+        learn[phase] = [(o["assign"][2], [g for g in o["guard"] if g not in ("true", "not false")]) for o in recs_
+                        if "assign" in o and o.get("place", "").endswith(".expect_pages_counter_increment") and o["assign"][0] == "="]
+    ok_l = learn["first"] == [] and learn["steady"] == [] and len(learn["second"]) == 1 and not learn["second"][0][1] \
+        and ("Obj(%s+0" % root) in learn["second"][0][0] and "LAST" not in learn["second"][0][0] and "FIRSTR" not in learn["second"][0][0]
+    rep.check(ok_l, "R10.2", "R10.2|increment|learn", "the page-counter increment is learnt exactly once, from the second RDH of the link", RUN,
+              "stores to the increment per phase (first RDH / second RDH / later): %s" % {k_: [(v_[0][:80], v_[1]) for v_ in vs_] for k_, vs_ in learn.items()})
     # orbit rule
     o_and = R["orbit_same_after_stop"]["and"]
     k_or = ckey(Evaluator(None).logic("and",
